@@ -32,6 +32,7 @@ class Spec:
         self.accessors = accessors or {}    # accessor method name -> frozenset of kinds (typed views of the payload)
         self.type_field = type_field        # public discriminant field name (direct writes), or None
         self.entry_zero = set(entry_zero)   # methods that assume an all-zero payload on entry (checked at call sites)
+        self.subfields = {}                 # member -> {sub-field name: kinds it represents}
 
 
 class RS:
@@ -399,6 +400,21 @@ class TagClient(dataflow.Client):
                 return
             writing = self.is_write_context(nid)
             self.touch_member(st, nid, n["n"], base_key, writing)
+            # sub-fields with their own kind (number_.Natural / Integer / Real)
+            sub = self.spec.subfields.get(n["n"]) if hasattr(self.spec, "subfields") else None
+            if sub:
+                par = fn.parents().get(nid)
+                while par is not None and fn.nodes[par]["k"] in ("ParenExpr", "ImplicitCastExpr"):
+                    par = fn.parents().get(par)
+                pn = fn.nodes[par] if par is not None else None
+                if pn is not None and pn["k"] in ("MemberExpr", "CXXDependentScopeMemberExpr") and pn.get("n") in sub:
+                    want = sub[pn["n"]]
+                    numeric = frozenset().union(*sub.values())
+                    ds = self.get(st, base_key)
+                    bad = [d for d in ds if not d.zero and d.P and d.P <= numeric and not (d.P <= want)]
+                    if not self.is_write_context(par):
+                        self.note("T1s", par, not bad, "%s.%s read while the payload kind is %s (that field belongs to %s)" % (
+                            n["n"], pn["n"], " / ".join(str(sorted(d.P)) for d in bad) or "compatible", sorted(want)), base_key)
             return
         if k == "DeclStmt":
             for d in n["decls"]:
